@@ -302,6 +302,54 @@ func runC09(c *Ctx) {
 		a, b := find(fn, isAppendStore(wi)), find(fn, isAppendStore(wl))
 		okv := len(a) == 1 && len(b) == 1 && a[0].Block() == b[0].Block()
 		c.verdict(okv, c.nm(fn)+" | watchInputs and watchList both grow on a match", c.P.Pos(fn.Pos()), "both appends in the same block", "a matching output no longer extends both watchInputs and watchList", c.ats(append(a, b...))...)
+		// a match must not end the scan of the transaction's outputs
+		txOutF := c.field(pWire, "MsgTx", "TxOut")
+		var outHeader *ssa.BasicBlock
+		ir.Instrs(fn, func(in ssa.Instruction) {
+			if ia, ok := in.(*ssa.IndexAddr); ok && isLoadOfPath(ia.X, txOutF) {
+				outHeader = ir.LoopHeaderOf(in.Block())
+			}
+		})
+		okScan := outHeader != nil && len(a) == 1
+		if okScan {
+			// blocks of the natural loop of outHeader
+			inLoop := map[*ssa.BasicBlock]bool{outHeader: true}
+			var stack []*ssa.BasicBlock
+			for e := range ir.BackEdgesTo(outHeader) {
+				if !inLoop[e.From] {
+					inLoop[e.From] = true
+					stack = append(stack, e.From)
+				}
+			}
+			for len(stack) > 0 {
+				x := stack[len(stack)-1]
+				stack = stack[:len(stack)-1]
+				for _, p := range x.Preds {
+					if !inLoop[p] {
+						inLoop[p] = true
+						stack = append(stack, p)
+					}
+				}
+			}
+			// from the match, every path returns to the output loop's header
+			// before leaving the loop
+			cutHdr := ir.Cut{}
+			for _, blk := range fn.Blocks {
+				for i, sb := range blk.Succs {
+					if sb == outHeader {
+						cutHdr[ir.Edge{From: blk, Succ: i}] = true
+					}
+				}
+			}
+			ir.WalkAfter(a[0], cutHdr, func(in ssa.Instruction) bool {
+				if !inLoop[in.Block()] {
+					okScan = false
+					return false
+				}
+				return true
+			})
+		}
+		c.verdict(okScan, c.nm(fn)+" | after a match the scan continues with the next output of the transaction", c.P.Pos(fn.Pos()), "control returns to the loop over tx.TxOut", "after one output matched, the remaining outputs of the transaction are no longer examined for that address: a second output paying a watched address is not added to the watch list and its later spend is missed")
 		eq := c.funcObj("bytes", "Equal")
 		g := boolIs("bytes.Equal(pkScript, addrScript)", find(fn, callTo(eq)), 0, true)
 		c.guarded(fn, g, 1, "extend watch lists", append(a, b...), 2, gDominate)
